@@ -546,9 +546,8 @@ func (env *SpecEnv) evalQuant(x *Expr) Value {
 		}
 		binders = append(binders, "("+name+" "+so+")")
 		scope[v.Name] = Value{term: name, typ: t}
-		if _, _, ok := intRange(t); ok && t != mathInt {
-			guards = append(guards, inRange(t, name))
-		}
+		// no range guard: quantified integers range over all mathematical
+		// integers (heap cells are only known to be in range once loaded)
 	}
 	n := *env
 	n.bound = append(append([]map[string]Value{}, env.bound...), scope)
@@ -708,6 +707,55 @@ func (env *SpecEnv) evalCall(x *Expr) Value {
 		argc(1)
 		ch := env.eval(x.Args[0])
 		return Value{term: sel(e.ghostGet(env.cur, ghostClosed), ch.term), typ: boolT}
+	case "calls":
+		// calls(callee, x): ghost number of calls of callee with the counted argument equal to x
+		argc(2)
+		if x.Args[0].Op != "ident" {
+			env.errorf("calls() needs a callee name")
+		}
+		k := callCountKey(x.Args[0].Name)
+		found := false
+		if e.contract != nil {
+			for _, cc := range e.contract.CallCounts {
+				if cc.Callee == x.Args[0].Name {
+					found = true
+				}
+			}
+		}
+		if !found {
+			env.errorf("no callcount declared for %s", x.Args[0].Name)
+		}
+		a := env.eval(x.Args[1])
+		return Value{term: sel(e.ghostGet(env.cur, k), a.term), typ: mathInt}
+	case "dqlen", "dqat":
+		// dqlen(p), dqat(p, i): the sequence held by the deque at pointer p
+		if len(x.Args) < 1 {
+			env.errorf("%s needs a deque pointer", x.Name)
+		}
+		pv := env.eval(x.Args[0])
+		pt, ok := pv.typ.Underlying().(*types.Pointer)
+		if !ok {
+			env.errorf("%s needs a pointer to a deque", x.Name)
+		}
+		var et types.Type
+		if n, ok := types.Unalias(pt.Elem()).(*types.Named); ok && n.TypeArgs().Len() == 1 {
+			et = n.TypeArgs().At(0)
+		} else {
+			env.errorf("%s: not a deque", x.Name)
+		}
+		lk, ek := "DQL", "DQE:"+shortTypeName(et)
+		if _, ok := e.q.keySort(lk); !ok {
+			e.q.declareHeap(lk, "(Array Int Int)")
+		}
+		if _, ok := e.q.keySort(ek); !ok {
+			e.q.declareHeap(ek, "(Array Int (Array Int "+e.u.sortOf(et)+"))")
+		}
+		if x.Name == "dqlen" {
+			return Value{term: sel(env.cur.get(lk), pv.term), typ: mathInt}
+		}
+		argc(2)
+		iv := env.eval(x.Args[1])
+		return Value{term: sel(sel(env.cur.get(ek), pv.term), iv.term), typ: et}
 	case "method":
 		// method(x, "Name"): uninterpreted result of a pure interface method
 		argc(2)
